@@ -305,13 +305,16 @@ c17_wrap_contracts!(ty: isize, any: kani::any(), wrappers: wsm_isize, region: c1
     wrapped: c17_contract_wrapped_isize_small, wrapped_between: c17_contract_wrapped_between_isize_small, pingpong: c17_contract_pingpong_isize_small);
 
 macro_rules! c17_wrap_const_period {
-    (ty: $T:ty, region: $safe:ident, wrapped: $h_w:ident, wrapped_between: $h_wb:ident, pingpong: $h_pp:ident) => {
+    (ty: $T:ty, region: $safe:ident,
+     uppers: [$($u:expr),+], bounds: [$($b:expr),+], pingpong_uppers: [$($p:expr),+],
+     wrapped: $h_w:ident, wrapped_between: $h_wb:ident, pingpong: $h_pp:ident) => {
         #[kani::proof]
         fn $h_w() {
             const M: $T = <$T>::MAX;
-            const U: [$T; 8] = [1, 2, 3, 10, 360, 1 << (<$T>::BITS / 2), M / 2 + 1, M];
+            const H: $T = 1 << (<$T>::BITS / 2);
+            const U: &[$T] = &[$($u),+];
             let v: $T = kani::any();
-            let i: usize = kani::any(); kani::assume(i < 8);
+            let i: usize = kani::any(); kani::assume(i < U.len());
             let u = U[i];
             kani::assume($safe!(v.w(), 0, u.w(), <$T as ToW>::MAXW));
             let r = v.wrapped(u);
@@ -321,9 +324,10 @@ macro_rules! c17_wrap_const_period {
         #[kani::proof]
         fn $h_wb() {
             const M: $T = <$T>::MAX;
-            const B: [($T, $T); 6] = [(2, 5), (0, 1), (1, M), (M - 3, M), (M / 2, M / 2 + 7), (100, 1 << (<$T>::BITS / 2))];
+            const H: $T = 1 << (<$T>::BITS / 2);
+            const B: &[($T, $T)] = &[$($b),+];
             let v: $T = kani::any();
-            let i: usize = kani::any(); kani::assume(i < 6);
+            let i: usize = kani::any(); kani::assume(i < B.len());
             let (lo, hi) = B[i];
             kani::assume($safe!(v.w(), lo.w(), hi.w(), <$T as ToW>::MAXW));
             let r = v.wrapped_between(lo, hi);
@@ -333,9 +337,10 @@ macro_rules! c17_wrap_const_period {
         #[kani::proof]
         fn $h_pp() {
             const M: $T = <$T>::MAX;
-            const U: [$T; 5] = [1, 3, 180, 1 << (<$T>::BITS / 2), M / 2];
+            const H: $T = 1 << (<$T>::BITS / 2);
+            const U: &[$T] = &[$($p),+];
             let v: $T = kani::any();
-            let i: usize = kani::any(); kani::assume(i < 5);
+            let i: usize = kani::any(); kani::assume(i < U.len());
             let u = U[i];
             kani::assume($safe!(v.w(), 0, 2 * u.w(), <$T as ToW>::MAXW));
             let r = v.pingpong(u);
@@ -345,19 +350,29 @@ macro_rules! c17_wrap_const_period {
         }
     }
 }
+// Constant lists (M = T::MAX, H = 2^(BITS/2)).  Periods with many set bits (360, H-100) make the 64-bit
+// instances run for many minutes, so the 64-bit lists use 1, small primes, 10, H and the range-end values only.
 c17_wrap_const_period!(ty: u16, region: c17_region_all,
+    uppers: [1, 2, 3, 10, 360, H, M / 2 + 1, M], bounds: [(2, 5), (0, 1), (1, M), (M - 3, M), (M / 2, M / 2 + 7), (100, H)], pingpong_uppers: [1, 3, 180, H, M / 2],
     wrapped: c17_wrapped_u16_const_period, wrapped_between: c17_wrapped_between_u16_const_period, pingpong: c17_pingpong_u16_const_period);
 c17_wrap_const_period!(ty: u32, region: c17_region_all,
+    uppers: [1, 2, 3, 10, 360, H, M / 2 + 1, M], bounds: [(2, 5), (0, 1), (1, M), (M - 3, M), (M / 2, M / 2 + 7), (0, 360)], pingpong_uppers: [1, 3, 180, H, M / 2],
     wrapped: c17_wrapped_u32_const_period, wrapped_between: c17_wrapped_between_u32_const_period, pingpong: c17_pingpong_u32_const_period);
 c17_wrap_const_period!(ty: u64, region: c17_region_all,
+    uppers: [1, 2, 3, 7, 10, H, M / 2 + 1, M], bounds: [(2, 5), (0, 1), (1, M), (M - 3, M), (M / 2, M / 2 + 7), (0, 3)], pingpong_uppers: [1, 3, 5, H, M / 2],
     wrapped: c17_wrapped_u64_const_period, wrapped_between: c17_wrapped_between_u64_const_period, pingpong: c17_pingpong_u64_const_period);
 c17_wrap_const_period!(ty: usize, region: c17_region_all,
+    uppers: [1, 2, 3, 7, 10, H, M / 2 + 1, M], bounds: [(2, 5), (0, 1), (1, M), (M - 3, M), (M / 2, M / 2 + 7), (0, 3)], pingpong_uppers: [1, 3, 5, H, M / 2],
     wrapped: c17_wrapped_usize_const_period, wrapped_between: c17_wrapped_between_usize_const_period, pingpong: c17_pingpong_usize_const_period);
 c17_wrap_const_period!(ty: i16, region: c17_sint_safe,
+    uppers: [1, 2, 3, 10, 360, H, M / 2 + 1, M], bounds: [(2, 5), (0, 1), (1, M), (M - 3, M), (M / 2, M / 2 + 7), (100, H)], pingpong_uppers: [1, 3, 180, H, M / 2],
     wrapped: c17_wrapped_i16_const_period_safe_region, wrapped_between: c17_wrapped_between_i16_const_period_safe_region, pingpong: c17_pingpong_i16_const_period_safe_region);
 c17_wrap_const_period!(ty: i32, region: c17_sint_safe,
+    uppers: [1, 2, 3, 10, 360, H, M / 2 + 1, M], bounds: [(2, 5), (0, 1), (1, M), (M - 3, M), (M / 2, M / 2 + 7), (0, 360)], pingpong_uppers: [1, 3, 180, H, M / 2],
     wrapped: c17_wrapped_i32_const_period_safe_region, wrapped_between: c17_wrapped_between_i32_const_period_safe_region, pingpong: c17_pingpong_i32_const_period_safe_region);
 c17_wrap_const_period!(ty: i64, region: c17_sint_safe,
+    uppers: [1, 2, 3, 7, 10, H, M / 2 + 1, M], bounds: [(2, 5), (0, 1), (1, M), (M - 3, M), (M / 2, M / 2 + 7), (0, 3)], pingpong_uppers: [1, 3, 5, H, M / 2],
     wrapped: c17_wrapped_i64_const_period_safe_region, wrapped_between: c17_wrapped_between_i64_const_period_safe_region, pingpong: c17_pingpong_i64_const_period_safe_region);
 c17_wrap_const_period!(ty: isize, region: c17_sint_safe,
+    uppers: [1, 2, 3, 7, 10, H, M / 2 + 1, M], bounds: [(2, 5), (0, 1), (1, M), (M - 3, M), (M / 2, M / 2 + 7), (0, 3)], pingpong_uppers: [1, 3, 5, H, M / 2],
     wrapped: c17_wrapped_isize_const_period_safe_region, wrapped_between: c17_wrapped_between_isize_const_period_safe_region, pingpong: c17_pingpong_isize_const_period_safe_region);
